@@ -17,15 +17,16 @@ import (
 // synchroniser and backend, so that the harness decides when each continuation fires and what it returns.
 
 type jPlan struct {
-	SID     int      `json:"sid"`
-	Kind    string   `json:"kind"`  // sign | keygen
-	Topic   int      `json:"topic"` // label; keygen ignores it
-	Members []uint16 `json:"members"`
-	S1      string   `json:"s1"`      // ok | fail | gate | gate_ignore
-	S1Then  string   `json:"s1_then"` // ok | fail (after a gate is released)
-	S2OK    bool     `json:"s2_ok"`
-	Be      string   `json:"be"` // ok | fail | block
-	ShareOK bool     `json:"share_ok"`
+	SID      int      `json:"sid"`
+	Kind     string   `json:"kind"`  // sign | keygen
+	Topic    int      `json:"topic"` // label; keygen ignores it
+	Members  []uint16 `json:"members"`
+	S1       string   `json:"s1"`      // ok | fail | gate | gate_ignore
+	S1Then   string   `json:"s1_then"` // ok | fail (after a gate is released)
+	S2OK     bool     `json:"s2_ok"`
+	Be       string   `json:"be"` // ok | fail | block
+	ShareOK  bool     `json:"share_ok"`
+	InitGate bool     `json:"init_gate"` // the backend's Init blocks until released
 }
 
 type jInject struct {
@@ -85,14 +86,16 @@ type jOrchScenario struct {
 }
 
 type oSession struct {
-	plan    jPlan
-	ctx     context.Context
-	cancel  context.CancelFunc
-	done    chan string // api result class
-	result  string
-	gate    chan struct{}
-	at      string // "", gate, s2fail, backend, finished
-	backend *scriptedBackend
+	plan     jPlan
+	ctx      context.Context
+	cancel   context.CancelFunc
+	done     chan string // api result class
+	result   string
+	gate     chan struct{}
+	initGate chan struct{}
+	s2Gate   chan struct{}
+	at       string // "", gate, initgate, s2fail, backend, finished
+	backend  *scriptedBackend
 }
 
 type orchWorld struct {
@@ -122,7 +125,12 @@ func (b *orchBackend) Init(parties []uint16, threshold int, sendMsg func(msg []b
 	b.scriptedBackend.Init(parties, threshold, sendMsg)
 	b.w.mu.Lock()
 	b.w.inits = append(b.w.inits, jInitRec{SID: b.sid, Parties: append([]uint16{}, parties...), Threshold: threshold})
+	se := b.w.sess[b.sid]
 	b.w.mu.Unlock()
+	if se != nil && se.plan.InitGate {
+		b.w.signals <- fmt.Sprintf("initgate %d", b.sid)
+		<-se.initGate
+	}
 }
 
 func (b *orchBackend) OnMsg(msgBytes []byte, from uint16, broadcast bool) {
@@ -179,6 +187,13 @@ func (s *orchSync) Synchronize(ctx context.Context, f func([]uint16), topic []by
 		return fmt.Errorf("unknown topic")
 	}
 	if !first {
+		if ctx.Err() != nil {
+			// a second synchronisation entered although the session is already over lingers before it gives up: whatever
+			// was registered for the dead session is visible meanwhile
+			w.signals <- fmt.Sprintf("s2linger %d", sid)
+			<-se.s2Gate
+			return fmt.Errorf("context done")
+		}
 		if se.plan.S2OK {
 			f(se.plan.Members)
 			return nil
@@ -269,6 +284,10 @@ func (w *orchWorld) await(sid int, want ...string) string {
 				switch kind {
 				case "gate":
 					o.at = "gate"
+				case "initgate":
+					o.at = "initgate"
+				case "s2linger":
+					o.at = "s2linger"
 				case "s2fail":
 					o.at = "s2fail"
 				case "backend":
@@ -354,7 +373,7 @@ func classifyErr(err error, ctx context.Context) string {
 func (w *orchWorld) start(plan jPlan) jOStep {
 	st := jOStep{Op: "start", SID: plan.SID, Plan: &plan}
 	ctx, cancel := context.WithCancel(context.Background())
-	se := &oSession{plan: plan, ctx: ctx, cancel: cancel, done: make(chan string, 1), gate: make(chan struct{})}
+	se := &oSession{plan: plan, ctx: ctx, cancel: cancel, done: make(chan string, 1), gate: make(chan struct{}), initGate: make(chan struct{}), s2Gate: make(chan struct{})}
 	w.mu.Lock()
 	w.sess[plan.SID] = se
 	w.current = plan.SID
@@ -392,7 +411,7 @@ func (w *orchWorld) start(plan jPlan) jOStep {
 		}
 		se.done <- classifyErr(err, ctx)
 	}()
-	r0 := w.await(plan.SID, "done", "gate", "s2fail", "backend")
+	r0 := w.await(plan.SID, "done", "gate", "initgate", "s2fail", "backend")
 	if r0 == "stuck" {
 		st.Stuck = "start"
 	}
@@ -469,10 +488,14 @@ func (w *orchWorld) release(sid int) jOStep {
 	w.mu.Lock()
 	w.current = sid
 	w.mu.Unlock()
-	if se != nil && se.at == "gate" {
+	if se != nil && (se.at == "gate" || se.at == "initgate") {
+		if se.at == "gate" {
+			close(se.gate)
+		} else {
+			close(se.initGate)
+		}
 		se.at = ""
-		close(se.gate)
-		want := []string{"s2fail", "backend", "s1done"}
+		want := []string{"s2fail", "backend", "s1done", "initgate", "s2linger"}
 		if se.result == "" {
 			want = append(want, "done")
 		}
@@ -486,7 +509,7 @@ func (w *orchWorld) release(sid int) jOStep {
 			}
 		}
 		// when the continuation produced the API result, wait for the goroutine to wind down too
-		if se.at != "finished" && se.at != "backend" && se.at != "s2fail" {
+		if se.at != "finished" && se.at != "backend" && se.at != "s2fail" && se.at != "initgate" && se.at != "s2linger" {
 			w.await(sid, "s1done")
 		}
 		if se.result == "" && se.at == "finished" {
@@ -585,7 +608,7 @@ func runOrchHistory(r *prng, id int) *jOrchScenario {
 	live := func() []int {
 		var l []int
 		for sid, se := range w.sess {
-			if se.result == "" || se.at == "gate" {
+			if se.result == "" || se.at == "gate" || se.at == "initgate" {
 				l = append(l, sid)
 			}
 		}
@@ -638,6 +661,9 @@ func runOrchHistory(r *prng, id int) *jOrchScenario {
 			if r.chance(1, 8) {
 				plan.ShareOK = false
 			}
+			if r.chance(1, 5) {
+				plan.InitGate = true
+			}
 			w.sc.Steps = append(w.sc.Steps, w.start(plan))
 		case c < 55:
 			l := live()
@@ -645,7 +671,7 @@ func runOrchHistory(r *prng, id int) *jOrchScenario {
 				continue
 			}
 			sid := l[r.intn(len(l))]
-			if w.sess[sid].at == "gate" {
+			if w.sess[sid].at == "gate" || (w.sess[sid].at == "initgate" && r.chance(1, 2)) {
 				w.sc.Steps = append(w.sc.Steps, w.release(sid))
 			} else {
 				w.sc.Steps = append(w.sc.Steps, w.cancelSession(sid))
@@ -719,9 +745,23 @@ func runOrchHistory(r *prng, id int) *jOrchScenario {
 			w.sc.Steps = append(w.sc.Steps, w.cancelSession(sid))
 		}
 	}
-	for _, sid := range live() {
-		if w.sess[sid].at == "gate" {
-			w.sc.Steps = append(w.sc.Steps, w.release(sid))
+	defer func() {
+		for _, se := range w.sess {
+			if se.at == "s2linger" {
+				close(se.s2Gate)
+			}
+		}
+	}()
+	for pass := 0; pass < 3; pass++ {
+		for _, sid := range live() {
+			if w.sess[sid].at == "gate" || w.sess[sid].at == "initgate" {
+				w.sc.Steps = append(w.sc.Steps, w.release(sid))
+			}
+		}
+		for _, sid := range live() {
+			if w.sess[sid].result == "" {
+				w.sc.Steps = append(w.sc.Steps, w.cancelSession(sid))
+			}
 		}
 	}
 	return w.sc
